@@ -77,6 +77,11 @@ pub fn f_lru(db: &dyn Database, i: InOne) -> u32 {
     *i.a(db)
 }
 
+/// C05: `set_lru_capacity` is generated with a `&mut` database parameter (checked on its signature).
+pub fn set_cap(db: &mut salsa::DatabaseImpl) {
+    f_lru::set_lru_capacity(db, 8);
+}
+
 #[salsa::tracked(specify)]
 pub fn f_specify<'db>(db: &'db dyn Database, t: TsMixed<'db>) -> u32 {
     *t.t1(db)
